@@ -603,6 +603,10 @@ func VerifyFunction(p *Program, cs *Contracts, fn *ssa.Function, con *Contract) 
 	for _, c := range con.RepInvs {
 		vc.assume(env.evalBool(c.Expr))
 	}
+	for k, c := range con.Assumes {
+		vc.assume(env.evalBool(c.Expr))
+		vc.assumes[fmt.Sprintf("input invariant of %s assumed, not checked at its call sites [%s]: %s", con.Key, clauseID(c, k), c.Src)] = true
+	}
 	for _, an := range con.Uses {
 		found := false
 		for _, ax := range cs.Axioms {
